@@ -1,7 +1,9 @@
 package sim
 
 import (
+	"fmt"
 	"hash/fnv"
+	"strings"
 
 	"github.com/truora/minidyn/simrt"
 )
@@ -120,4 +122,47 @@ func UpdText(cmd *Cmd) string {
 		return ""
 	}
 	return cmd.Upd.Render(NewBinder())
+}
+
+// projection renders the ProjectionExpression of a Get or BatchGet.
+func projection(cmd *Cmd) (string, map[string]string) {
+	if len(cmd.Proj) == 0 || (cmd.Op != "Get" && cmd.Op != "BatchGet") {
+		return "", nil
+	}
+	if !cmd.ProjNames {
+		return strings.Join(cmd.Proj, ", "), nil
+	}
+	names := map[string]string{}
+	var parts []string
+	for i, a := range cmd.Proj {
+		p := fmt.Sprintf("#p%d", i)
+		names[p] = a
+		parts = append(parts, p)
+	}
+	return strings.Join(parts, ", "), names
+}
+
+// projOK: what a read with a projection returned for one item. The projected
+// attributes the item has must be there with their values; attributes beyond
+// the projection may be there too (the library returns whole items; a
+// projection is an optimisation of the transfer, not part of any claimed
+// property), nothing else.
+func projOK(got, want Item, proj []string) bool {
+	if want == nil {
+		return len(got) == 0
+	}
+	for a, v := range got {
+		w, ok := want[a]
+		if !ok || w.Canon() != v.Canon() {
+			return false
+		}
+	}
+	for _, a := range proj {
+		if w, ok := want[a]; ok {
+			if g, has := got[a]; !has || g.Canon() != w.Canon() {
+				return false
+			}
+		}
+	}
+	return true
 }
